@@ -35,6 +35,8 @@ def run(ctx):
     ctx.guard(scope_rule, ctx)
     from . import scope as _scope
     ctx.guard(_scope.symbols_exact, ctx, 'C06-SYMBOLS')
+    from . import listnodes
+    ctx.guard(listnodes.check, ctx, 'C06-NONE')
     ctx.guard(oblig_rule, ctx, ki)
     ctx.assume('uniqueness of generated ids and is_consistent() of a concrete program are not decided')
     ctx.assume('name resolution succeeds (well-formed, name-resolved programs): look-ups such as o_obj()/s_dt() return an instance')
